@@ -73,6 +73,34 @@ def run_zone(out, stream, zone, cases):
                      classify=lambda c, i: zone + "/" + " ".join(i.split(" ")[1:3]))
 
 
+def run_listed(out, rnd, zone, n):
+    """the text as a listing shows it: `display` of the schedules parsed from a device reply (recurring and one-time records), every other
+    reply listed a second time after the application edited the day sets of the first listing (zonework.schedules)"""
+    from props import c10
+    tz = zoneinfo.ZoneInfo(zone); cases = []
+    for now in world.interesting_instants(rnd, zone, n):
+        c = c10.gen_case(rnd, zone, now)
+        c["recs"] = [r for r in c["recs"] if r[2] == 0 or (r[2] % 2 == 0 and 2 <= r[2] <= 254)]          # masks the property speaks about
+        cases.append(c)
+    msgs = [bytes.fromhex(m) for m in lib.run_model([lib.req("schedules_encode", bytes.fromhex(c["hdr"]), c["recs"], bytes.fromhex(c["tail"])) for c in cases])]
+    full = world.zone_job(zone, "schedules", [{"now": c["now"], "msg": m.hex()} for c, m in zip(cases, msgs)])
+    io = []; ex = []; lines = []; owners = []
+    for c, t in zip(cases, full):
+        rows = [x.split(",") for x in t.split("|") if x] if "listed again" not in t and t != "raised" else None
+        io.append(t if rows is None else "|".join("%s:%s" % (r[0], r[-1]) for r in rows))
+        local = D.datetime.fromtimestamp(c["now"], tz); seen = set(); want = []
+        for (i, en, mask, st, s_, e_, tail) in c["recs"]:
+            if i in seen: continue
+            seen.add(i); ls = D.datetime.fromtimestamp(s_, tz); start = ls.strftime("%H:%M"); days = [d for d in range(7) if mask >> (d + 1) & 1]
+            lines.append(lib.req("next_run_spec", local.weekday(), local.hour * 60 + local.minute, ls.hour * 60 + ls.minute, start, days)); want.append(i)
+        owners.append(want)
+    spec = iter(lib.run_model(lines))
+    for want in owners:
+        ex.append("|".join("%s:%s" % (i, t[3:] if t.startswith("ok ") else t) for i, t in sorted((i, next(spec)) for i in want)))
+    lib.differential(out, "display-of-listed-schedules", cases, io, None, ex, lambda c: "zone %s now %d listing of records %s" % (c["zone"], c["now"], [r[:3] + r[4:5] for r in c["recs"]]),
+                     nontrivial=lambda c: len(c["recs"]) > 0, sample=lambda c: str(c["recs"])[:200], classify=lambda c, i: "listed/" + zone)
+
+
 def run_ticking(out, rnd, zone, n):
     """a running clock that passes local midnight during the call: the answer is the one for the last instant of the old day or the one
     for the first instant of the new day - never a mixture (yesterday's weekday with today's time of day)"""
@@ -100,8 +128,13 @@ def run(tier, rnd, out):
     for zone in zones:
         cs = gen(rnd, zone, tier); run_zone(out, "weekday-set-minute-grid", zone, cs)
         if zone in zones[:2]: run_ticking(out, rnd, zone, 300 if tier == "quick" else 3000)
+        if zone in zones[:3]: run_listed(out, rnd, zone, 40 if tier == "quick" else 600)
         run_zone(out, "same-set-object-consulted-twice", zone, gen_reuse(rnd, [c for c in cs if len(c["days"]) >= 2], 150 if tier == "quick" else 3000))
 
 
 def replay(rp, out):
-    c = rp["input"]; run_zone(out, rp.get("stream", "replay"), c["zone"], [c])
+    c = rp["input"]
+    if "recs" in c:
+        import random
+        return run_listed(out, random.Random(1), c["zone"], 40)          # the listing stream is re-run for the zone (the reply itself is rebuilt from the seed)
+    run_zone(out, rp.get("stream", "replay"), c["zone"], [c])
